@@ -35,6 +35,8 @@ GATES = {"internal/dmap/eviction.go": ["-skip", "evictKeys"],
                                      "-point", "deleteOnCluster", "Delete", "del.others-deleted"],
          "internal/dmap/compaction.go": ["-point", "callCompactionOnFragment", "Lock", "compact.fragment"],
          "internal/dmap/janitor.go": ["-point", "janitor", "Lock", "janitor.locking"],
+         # one hit per scan request a member serves (remote DM.SCAN or the embedded iterator's local call)
+         "internal/dmap/scan_handlers.go": ["-point", "Scan", "loadFragment", "scan.request"],
          # the coordinator has computed the new table (and asked every previous owner whether it still holds data) but
          # has not pushed it yet
          "internal/cluster/routingtable/routingtable.go": ["-point", "updateRouting", "updateRoutingTableOnCluster", "routing.computed"],
